@@ -204,6 +204,7 @@ def run(ctx):
             ok = solved_level(ctx, c, c2, label, clause, fails)
             n_solved += 1 if ok else 0
     ctx.traces += n_cost + n_solved
+    ctx.exhaustive['binding: seeded trial vectors, sampled solved pairs'] = False
     ctx.stage('replay.Reformulate', edges=len(edges), cost_comparisons=n_cost, solved_pairs=n_solved)
 
 
